@@ -341,6 +341,14 @@ func slice(fr *frame, instr *ssa.Slice, x, lo, hi, max value) value {
 // lookup returns x[idx] where x is a map.
 func lookup(fr *frame, instr *ssa.Lookup, x, idx value) value {
 	switch x := x.(type) {
+	case string, symstr:
+		// string indexing
+		s, _ := asSymBytes(x)
+		checkIndex(fr, instr.Pos(), idx, len(s))
+		if si, ok := idx.(*symv); ok {
+			return (&symptr{elems: []value(s), idx: si}).load(fr, instr.Type())
+		}
+		return s[asInt64(idx)]
 	case *omap:
 		v, ok := x.lookup(fr, idx)
 		if !ok {
@@ -1163,6 +1171,11 @@ func callBuiltin(caller *frame, fn *ssa.Builtin, args []value) value {
 			if n == 0 {
 				return ""
 			}
+			if p != nil {
+				// pointer to the first of n contiguous boxed cells (e.g. &b[0])
+				cells := unsafe.Slice(p, n)
+				return normStr(symstr(append([]value{}, cells...)))
+			}
 		}
 		panic(engineFault{fmt.Sprintf("unsafe.String on %T", args[0])})
 	case "Slice": // unsafe.Slice(ptr, len)
@@ -1173,6 +1186,9 @@ func callBuiltin(caller *frame, fn *ssa.Builtin, args []value) value {
 		case *value:
 			if n == 0 {
 				return []value(nil)
+			}
+			if p != nil {
+				return unsafe.Slice(p, n)
 			}
 		}
 		panic(engineFault{fmt.Sprintf("unsafe.Slice on %T", args[0])})
